@@ -17,7 +17,7 @@ RULE = (
     "distinct (population, op list); non-trivial = >= 2 steps with at least one refused operation or reset"
 )
 ASSUMPTIONS = [
-    "re-registering an already registered class with a different private flag is a case the statement is silent about: either visibility is accepted there and nowhere else",
+    "re-registering an already registered class with another private flag: the most recent successful registration decides its visibility (what the repaired code does; a listing that disagrees with it is a stale registry view)",
     "a definition that names a built-in class under a new symbol may be accepted or refused, but every built-in's public face must stay as imported",
     "defaults of user-defined classes are not covered by the statement (only built-in defaults are)",
     "process-global state is not trusted to be restored by the library: each history starts from a fork of a parent that never executed one",
@@ -84,6 +84,8 @@ def gen_op(rng, state):
             # the same (possibly already validated and registered) class, but a definition whose
             # declared equation contradicts the numeric impedance
             return {"op": "register", "symbol": rng.choice(syms), "cls": 0, "good": True, "private": False, "equation": rng.choice(["2*R", "R + 1", "R*I"])}
+        if rng.random() < 0.4:
+            return {"op": "register", "symbol": rng.choice(syms), "cls": 3, "good": "subtle", "private": False}
         return {"op": "register", "symbol": rng.choice(syms), "cls": 2, "good": False, "private": False}
     if op == "reg_dup_class":
         return {"op": "register", "symbol": rng.choice(syms), "cls": 1, "good": True, "private": rng.random() < 0.3}
@@ -94,6 +96,12 @@ def gen_op(rng, state):
     if op == "reg_builtin_class":
         return {"op": "register_builtin_class", "builtin": rng.choice(["R", "C", "Q"]), "symbol": rng.choice(syms)}
     if op == "remove":
+        r = rng.random()
+        if r < 0.25:
+            # a class that is NOT the one registered under the symbol (removed earlier, refused, or never registered)
+            return {"op": "remove_stale", "symbol": rng.choice(syms), "which": rng.choice([0, 1, 2]), "as_list": rng.random() < 0.4}
+        if r < 0.4:
+            return {"op": "remove_stale", "symbol": rng.choice(BUILTIN_PROBE), "which": "refused_under_builtin", "as_list": rng.random() < 0.4}
         return {"op": "remove", "symbol": rng.choice(syms), "as_list": rng.random() < 0.4}
     if op == "remove_builtin":
         return {"op": "remove_builtin", "symbol": rng.choice(BUILTIN_PROBE), "as_list": rng.random() < 0.4}
@@ -111,9 +119,15 @@ def gen_op(rng, state):
 def _mkclass(good):
     from pyimpspec.circuit.base import Element
 
-    class UserElement(Element):
-        def _impedance(self, f, R):
-            return np.full(f.shape, R if good else 2.0 * R + 1.0, dtype=complex)
+    if good == "subtle":
+        # wrong only in a component that is tiny next to |Z| at the default values
+        class UserElement(Element):
+            def _impedance(self, f, R):
+                return np.full(f.shape, R + 3e-7j * R, dtype=complex)
+    else:
+        class UserElement(Element):
+            def _impedance(self, f, R):
+                return np.full(f.shape, R if good else 2.0 * R + 1.0, dtype=complex)
 
     return UserElement
 
@@ -218,7 +232,7 @@ def apply(state, rec):
             if cid not in classes:
                 classes[cid] = _mkclass(rec["good"])
             cls = classes[cid]
-            inconsistent = (not rec["good"]) or rec.get("equation", "R") != "R"
+            inconsistent = (rec["good"] is not True) or rec.get("equation", "R") != "R"
             expect_refused = inconsistent or (s in model and model[s]["cls"] != cid)
             try:
                 register_element(_mkdef(cls, s, rec.get("equation", "R")), private=rec["private"])
@@ -231,10 +245,8 @@ def apply(state, rec):
             if not ok and not expect_refused:
                 return _viol("valid-op-refused", rec, f"register_element refused a valid definition for the unregistered symbol {s} (registry model: {sorted(model)})")
             if ok:
-                if s in model and model[s]["cls"] == cid and model[s]["private"] != rec["private"]:
-                    model[s] = {"cls": cid, "private": None}
-                else:
-                    model[s] = {"cls": cid, "private": bool(rec["private"])}
+                # the most recent successful registration decides the visibility of the symbol
+                model[s] = {"cls": cid, "private": bool(rec["private"])}
                 state["last_reg"] = (s, bool(rec["private"]))
             else:
                 stats["refused"]["register_" + ("inconsistent" if inconsistent else "duplicate_symbol")] += 1
@@ -283,6 +295,28 @@ def apply(state, rec):
             else:
                 remove_elements([cls] if rec["as_list"] else cls)
                 model.pop(s, None)
+        elif op == "remove_stale":
+            sym = rec["symbol"]
+            if rec["which"] == "refused_under_builtin":
+                # a user class whose registration under a built-in symbol is refused, then removed
+                cls = _mkclass(True)
+                try:
+                    register_element(_mkdef(cls, sym))
+                except (KeyError, ValueError, TypeError):
+                    stats["refused"]["register_builtin_symbol"] += 1
+                else:
+                    return _viol("refused-op-accepted", rec, f"a user class was registered under the built-in symbol {sym}", kind="builtin-symbol")
+                remove_elements([cls] if rec["as_list"] else cls)
+            else:
+                cid = f"{sym}/{rec['which']}"
+                if cid not in classes:
+                    classes[cid] = _mkclass(rec["which"] != 2)
+                if sym in model and model[sym]["cls"] == cid:
+                    remove_elements([classes[cid]] if rec["as_list"] else classes[cid])
+                    model.pop(sym, None)
+                else:
+                    # not the registered class: removing it must not touch anybody else's registration
+                    remove_elements([classes[cid]] if rec["as_list"] else classes[cid])
         elif op == "remove_builtin":
             cls = _BUILTIN[rec["symbol"]]
             try:
